@@ -61,7 +61,7 @@ def generate(rng, n, tier):
                 items.append({"nest": rng.choice(["all", "any"]), "items": inner})
             else:
                 items.append(crit_src(rng))
-        yield {"kind": rng.choice(["all", "any", "where", "having", "where_split", "ops", "pg_conflict"]), "items": items,
+        yield {"kind": rng.choice(["all", "any", "where", "having", "where_split", "ops", "pg_conflict", "index_where"]), "items": items,
                "cls": rng.choice(list(QNAMES)), "eform": rng.randrange(len(EMPTY_FORMS)),
                "split": [rng.random() < 0.5 for _ in range(ln)], "op": rng.choice(["&", "|", "^"])}
 
@@ -138,9 +138,12 @@ def examine(case):
             res.requests.append(({"op": "critfold", "kind": kind, "ctx": ctx, "terms": terms}, ra, "Criterion.%s" % kind))
         except Unsupported as e:
             res.skipped = str(e)[:40]
-    elif kind in ("where", "having", "where_split"):
+    elif kind in ("where", "having", "where_split", "index_where"):
         meth = "having" if kind == "having" else "where"
         base = "%s.from_(T('t')).select(T('t').a)" % qn + (".groupby(T('t').a)" if meth == "having" else "")
+        if kind == "index_where":
+            # the partial-index predicate of CREATE INDEX is built by where() calls too
+            base = "Query.create_index('ix').on(T('t')).columns('a')"
         if kind == "where_split":
             # the same conjunction split over calls in an arbitrary way: groups joined by Criterion.all
             groups, cur = [], []
